@@ -3,6 +3,7 @@ C15 — provision succeeds only within the caller's slippage tolerance
 (function level: `assert_slippage_tolerance`; `t` in `Decimal` atomics).
 -/
 import Halo.Proofs.C15
+import Halo.Proofs.C15M
 
 namespace Halo.Props.C15
 open Halo
@@ -34,6 +35,16 @@ theorem slippage_no_abort {t d0 d1 r0 r1 : Nat} (ht : t ≤ E)
     (hd0W : d0 < W) (hd1W : d1 < W) (hr0W : r0 < W) (hr1W : r1 < W) :
     assertSlippage (some t) d0 d1 r0 r1 = .ok () ∨ assertSlippage (some t) d0 d1 r0 r1 = .error .guard :=
   Halo.C15.slippage_no_abort ht hd0 hd1 hr0 hr1 hd0W hd1W hr0W hr1W
+
+/-- "only within the caller's tolerance" is monotone: a provision accepted at tolerance `t` is
+accepted at every larger tolerance up to 100% (raising the tolerance never turns success into failure) -/
+theorem slippage_mono_tolerance {t t' d0 d1 r0 r1 : Nat}
+    (h : assertSlippage (some t) d0 d1 r0 r1 = .ok ()) (htt : t ≤ t') (ht' : t' ≤ E) :
+    assertSlippage (some t') d0 d1 r0 r1 = .ok () :=
+  Halo.C15.slippage_mono_tolerance h htt ht'
+
+/-- non-vacuity, and the converse direction fails: the 2%-off deposit passes at 5% but not at 1% -/
+example : assertSlippage (some (E / 20)) 1020 2000 1000000 2000000 = .ok () := by decide
 
 example : assertSlippage (some (E / 100)) 1000 2000 1000000 2000000 = .ok () := by decide
 example : assertSlippage (some (E / 100)) 1020 2000 1000000 2000000 = .error .guard := by decide
